@@ -411,13 +411,12 @@ fn run_case(plan: &Plan, root: &Path, case_no: usize) -> (String, String, bool) 
     let _ = std::fs::remove_dir_all(&dir);
     let crashed = final_pcs.iter().filter(|c| **c != 0 && **c != 7).count();
     let shape = format!(
-        "{} lw={} maxheads={} reconcile={} overlap={} crashed={}{}{}",
+        "{} lw={} reconcile={} overlap={}{}{}{}",
         plan.kind,
         plan.lw,
-        max_heads.min(3),
         n_reconcile > 0,
         overlapped,
-        crashed > 0,
+        if crashed > 0 && max_heads >= 3 { " crashed+3heads" } else { "" },
         if emptied { " EMPTIED" } else { "" },
         if trouble.is_some() { " WATCHDOG" } else { "" }
     );
@@ -443,7 +442,31 @@ fn random_plan(rng: &mut Rng) -> Plan {
     let lw = rng.chance(1, 2);
     let nkeys = rng.range(3, 6) as u8;
     let nprocs = rng.range(1, 3) as usize;
-    let kind_sel = rng.below(10);
+    let kind_sel = rng.below(12);
+    if kind_sel >= 10 {
+        // a stale writer paused between add_head and remove_head while another instance
+        // reconciles, random history and entries (the F6 shape with random content)
+        let nkeys = rng.range(2, 4) as u8;
+        let first = rand_ents(rng, nkeys, false);
+        let mut second = rand_ents(rng, nkeys, false);
+        if rng.chance(1, 2) {
+            // same keys, other values: the merged table can coincide with the parent
+            second = first.iter().map(|(k, _)| (*k, VALUE_POOL[rng.usize(7)].to_vec())).collect();
+        }
+        let mut p0 = vec![Cmd::Read, Cmd::Stale(first)];
+        if rng.chance(1, 3) {
+            p0.push(Cmd::Write(rand_ents(rng, nkeys, false)));
+        }
+        let mut sched = vec![Sch::Burst(0); p0.len()];
+        sched.extend([Sch::Burst(1), Sch::Step(1), Sch::Step(1), Sch::Burst(2), Sch::Burst(1), Sch::Burst(2)]);
+        return Plan {
+            lw: rng.chance(1, 2),
+            nkeys,
+            procs: vec![p0, vec![Cmd::Read, Cmd::Stale(second)], vec![Cmd::Read, Cmd::Read]],
+            sched,
+            kind: "overlap-random",
+        };
+    }
     // 0-3: serial sections (bursts only); 4-5: serial, all writers locked; 6-9: step interleavings
     let (kind, serial, allow_stale): (&'static str, bool, bool) = match kind_sel {
         0..=3 => ("serial", true, true),
